@@ -307,9 +307,18 @@ def handleServe (op : String) (args : List String) (impl : Option (List String))
         if mode == "remote" then ["err", "-"]
         else if exitS != "0" then ["err", seen]
         else if text == "cert" then ["ok " ++ derS, seen] else ["err", seen]
+      -- the statement does not fix the tool's command line: what is judged is the result, that a
+      -- remote-mode server does not run the tool, and that the slot asked for is among the arguments
       some ⟨expected, impl.map fun out => if out.head? == some "crash" then "bad:crash"
         else if out == expected then "ok"
-        else if mode == "remote" then "bad:slot-operation-on-remote-server" else "bad:slot-operation"⟩
+        else if mode == "remote" then "bad:slot-operation-on-remote-server"
+        else match out with
+          | [res, seenS] =>
+            if some res != expected.head? then "bad:slot-operation"
+            else match bytesOfHex seenS with
+              | some seenB => if (Text.splitOn 0x0a seenB).contains slot then "ok" else "bad:slot-operation-other-slot"
+              | none => "bad:slot-operation-other-slot"
+          | _ => "bad:protocol"⟩
     | none => some badProto
   | "slots", [textS, exitS, mode] =>
     match bytesOfHex textS with
